@@ -10,7 +10,7 @@ import numpy as np
 from . import core, models
 from .core import require
 
-INTERNAL_DIMS = {"t": [10, 20, 30], "w": [0.5, 1.5], "s": ["p", "q", "r"]}
+INTERNAL_DIMS = {"t": [10, 20, 30], "time": [10, 20, 30], "w": [0.5, 1.5], "s": ["p", "q", "r"]}
 
 
 def var_value(kw, j, shape):
